@@ -316,7 +316,8 @@ reg(
 reg(
     "C11",
     "A case is an expectation program from a grammar: 1-3 ADEV sites (flip_enum, flip_enum_parallel, categorical_enum_parallel, "
-    "flip_reinforce, flip_mvd, geometric_reinforce, normal/uniform reparam and reinforce, multivariate normal diag/full reparam, "
+    "flip_reinforce, flip_mvd, batched flip_enum / flip_mvd sites (two Bernoulli lanes in one site, coupled by the objective), "
+    "geometric_reinforce, normal/uniform reparam and reinforce, multivariate normal diag/full (non-diagonal covariance) reparam, "
     "multivariate normal reinforce) whose parameters are smooth functions of 1-2 arguments and of earlier draws, a smooth return "
     "expression optionally selecting on a discrete draw (arithmetic where or lax.cond) or a lax.cond on theta; configuration "
     "seed / jit(seed) / modular_vmap over a batch of thetas. Oracle: exact enumeration + Gauss quadrature in float64 and "
@@ -326,7 +327,7 @@ reg(
     quick={"shards": 16, "timeout_s": 3000, "n_cases": 8, "n1": 6000,
            "required_classes": ["C11.all_enum_exact", "C11.stochastic_calibrated", "C11.composition_of_different_estimator_kinds", "C11.param_depends_on_earlier_draw",
                                 "C11.site_flip_enum", "C11.site_flip_enum_parallel", "C11.site_categorical_enum_parallel", "C11.site_flip_mvd", "C11.site_flip_reinforce",
-                                "C11.site_normal_reparam", "C11.site_normal_reinforce", "C11.mode_jit", "C11.mode_vmap_thetas", "C11.ret_cond"]},
+                                "C11.site_normal_reparam", "C11.site_normal_reinforce", "C11.site_mvn_reparam", "C11.batched_bernoulli_site", "C11.mode_jit", "C11.mode_vmap_thetas", "C11.ret_cond"]},
     thorough={"shards": 16, "timeout_s": 4 * 3600, "n_cases": 64, "n1": 24000,
               "required_classes": ["C11.all_enum_exact", "C11.stochastic_calibrated", "C11.composition_of_different_estimator_kinds"]},
 )
